@@ -399,6 +399,13 @@ public:
       ASMJIT_ASSERT(_search_start >= released_area_size);
       _search_start -= released_area_size;
       _largest_unused_area += released_area_size;
+
+      // The block can become empty this way as well (it then looks like after `clear_block()`).
+      if (area_used() == initial_area_start()) {
+        _search_end = _area_size;
+        clear_flags(kFlagDirty);
+        add_flags(kFlagEmpty);
+      }
     }
     else {
       _search_start = Support::min(_search_start, released_area_start);
